@@ -22,6 +22,49 @@ NAME_OF_RATE = {v: k for k, v in RATES.items()}
 TRIAL_PCS = ('ee', 'succ', 'cs', 'incr')
 
 
+NOISE_KW = {'deformation_axis': 'x'}
+FOREIGN_KINDS = ('rate', 'code', 'noise', 'decoder')
+
+
+def name_of(rate, code_params, noise_kwargs, dec_params):
+    """Which modelled simulation a (code, noise, decoder, rate) is: the
+    foreign record differs from s1 in exactly one of the four."""
+    cp = code_params if isinstance(code_params, dict) else {}
+    if (rate == RATES['f'] or (cp.get('L_x'), cp.get('L_y')) != (2, 2)
+            or (noise_kwargs or {}) != NOISE_KW or (dec_params or {}).get('error_type') is not None):
+        return 'f'
+    return NAME_OF_RATE.get(rate, '?')
+
+
+def name_of_sim(sim):
+    return name_of(sim.error_rate, sim.code.params, sim.error_model.params.get('deformation_kwargs'),
+                   sim.decoder.params)
+
+
+def name_of_inputs(inputs):
+    return name_of(inputs['error_rate'], inputs['code']['parameters'],
+                   inputs['error_model']['parameters'].get('deformation_kwargs'),
+                   inputs['decoder']['parameters'])
+
+
+def build_sim(name, foreign_kind, compressed):
+    rate = RATES[name]
+    code = Toric2DCode(2, 2)
+    kw = dict(NOISE_KW)
+    dkw = {}
+    if name == 'f' and foreign_kind != 'rate':
+        rate = RATES['s1']
+        if foreign_kind == 'code':
+            code = Toric2DCode(2, 3)
+        elif foreign_kind == 'noise':
+            kw = None                     # deformation kwargs omitted: stored as {}
+        elif foreign_kind == 'decoder':
+            dkw = {'error_type': 'X'}
+    em = PauliErrorModel(1 / 3, 1 / 3, 1 / 3, deformation_name='XZZX', deformation_kwargs=kw)
+    dec = MatchingDecoder(code, em, rate, **dkw)
+    return DirectSimulation(code, em, dec, rate, verbose=False, compress=compressed)
+
+
 def trial_id(run_no, sim, k):
     return run_no * 10000 + INDEX[sim] * 100 + k
 
@@ -224,7 +267,8 @@ def run_session(jobs):
     sims = {}
 
     def stub_run_once(code, error_model, decoder, error_rate, rng=None):
-        name = NAME_OF_RATE[error_rate]
+        name = name_of(error_rate, code.params, error_model.params.get('deformation_kwargs'),
+                       decoder.params)
         sim = sims[name]
         tid = trial_id(state['run_no'], name, sim.n_results + 1)
         state['fault'].armed = 4
@@ -245,7 +289,7 @@ def run_session(jobs):
         for k, val in sim._results.items():
             hd[k] = val
         sim._results = hd
-        sims[NAME_OF_RATE[sim.error_rate]] = sim
+        sims[name_of_sim(sim)] = sim
         return orig_append(self, sim)
     BatchSimulation.append = hooked_append
 
@@ -261,20 +305,17 @@ def run_session(jobs):
             json.dump({'comments': '', 'ranges': {
                 'label': 'c12', 'code': {'name': 'Toric2DCode', 'parameters': [{'L_x': 2, 'L_y': 2}]},
                 'error_model': {'name': 'PauliErrorModel',
-                                'parameters': [{'r_x': 1 / 3, 'r_y': 1 / 3, 'r_z': 1 / 3}]},
+                                'parameters': [{'r_x': 1 / 3, 'r_y': 1 / 3, 'r_z': 1 / 3,
+                                                'deformation_name': 'XZZX',
+                                                'deformation_kwargs': dict(NOISE_KW)}]},
                 'decoder': {'name': 'MatchingDecoder'},
                 'error_rate': [RATES[nm] for nm in first['spec']]}}, fh)
         batch = None
     else:
-        code = Toric2DCode(2, 2)
-        em = PauliErrorModel(1 / 3, 1 / 3, 1 / 3)
         batch = BatchSimulation(first['out'], save_frequency=first['savefreq'],
                                 update_frequency=1000, verbose=False)
         for name in first['spec']:
-            dec = MatchingDecoder(code, em, RATES[name])
-            sim = DirectSimulation(code, em, dec, RATES[name], verbose=False,
-                                   compress=first['compressed'])
-            batch.append(sim)
+            batch.append(build_sim(name, first.get('foreign', 'rate'), first['compressed']))
     for k, job in enumerate(jobs):
         if k > 0:
             # a new run on the same object: new fault plan, counters restart
@@ -367,7 +408,7 @@ def project_disk(path, compressed):
         return {'kind': 'torn', 'data': {}}
     out = {}
     for rec in data:
-        name = NAME_OF_RATE.get(rec['inputs']['error_rate'], '?')
+        name = name_of_inputs(rec['inputs'])
         r = rec['results']
         out[name] = {
             'ee': [int(np.asarray(x).ravel()[0]) for x in r['effective_error']],
